@@ -263,8 +263,96 @@ fn error_code(body: &[u8]) -> String {
     }
 }
 
+fn pct_decode_strict(s: &[u8]) -> Option<Vec<u8>> {
+    let mut o = Vec::new();
+    let mut i = 0;
+    while i < s.len() {
+        if s[i] == b'%' {
+            let h = std::str::from_utf8(s.get(i + 1..i + 3)?).ok()?;
+            o.push(u8::from_str_radix(h, 16).ok()?);
+            i += 3;
+        } else {
+            o.push(s[i]);
+            i += 1;
+        }
+    }
+    Some(o)
+}
+
+/// `pre.at-eval.A<age>.E<expires>` lines are templates: the URL is (re-)signed when it is evaluated, with
+/// `X-Amz-Date = now − age` (whole seconds), so that a fixed corpus line keeps its position relative to the window.
+/// Returns the case with the final query.
+fn materialize(case: &Case) -> Option<Case> {
+    let rest = case.kind.strip_prefix("pre.at-eval.A")?;
+    let age: i64 = rest.split(".E").next()?.parse().ok()?;
+    let mut pairs: Vec<(Vec<u8>, Vec<u8>)> = Vec::new();
+    for part in case.query.as_deref()?.split(|&b| b == b'&').filter(|p| !p.is_empty()) {
+        let mut it = part.splitn(2, |&b| b == b'=');
+        let n = pct_decode_strict(it.next()?)?;
+        let v = pct_decode_strict(it.next().unwrap_or(&[]))?;
+        pairs.push((n, v));
+    }
+    let unix = real_now() - age;
+    let ts = amz_timestamp(unix);
+    let date8 = ts[..8].to_owned();
+    let get = |pairs: &[(Vec<u8>, Vec<u8>)], n: &str| -> Option<String> {
+        pairs.iter().find(|(k, _)| k == n.as_bytes()).map(|(_, v)| String::from_utf8_lossy(v).into_owned())
+    };
+    let cred = get(&pairs, "X-Amz-Credential")?;
+    let cp: Vec<&str> = cred.split('/').collect();
+    if cp.len() != 5 {
+        return None;
+    }
+    let (ak, region, service) = (cp[0].to_owned(), cp[2].to_owned(), cp[3].to_owned());
+    let secret = case.table.iter().find(|(a, _)| a == ak.as_bytes()).map(|(_, s)| String::from_utf8_lossy(s).into_owned())?;
+    let signed: Vec<String> = get(&pairs, "X-Amz-SignedHeaders")?.split(';').map(str::to_owned).collect();
+    for (k, v) in &mut pairs {
+        if k == b"X-Amz-Date" {
+            *v = ts.clone().into_bytes();
+        } else if k == b"X-Amz-Credential" {
+            *v = format!("{ak}/{date8}/{region}/{service}/aws4_request").into_bytes();
+        }
+    }
+    pairs.retain(|(k, _)| k != b"X-Amz-Signature");
+    let mut hs: Vec<(String, String)> = case
+        .headers
+        .iter()
+        .map(|(n, v)| (String::from_utf8_lossy(n).into_owned(), String::from_utf8_lossy(v).into_owned()))
+        .collect();
+    if case.http2 && !hs.iter().any(|(n, _)| n.eq_ignore_ascii_case("host")) {
+        if let Some(a) = &case.authority {
+            hs.insert(0, ("host".into(), String::from_utf8_lossy(a).into_owned()));
+        }
+    }
+    let path = pct_decode_strict(&case.path)?;
+    let method = String::from_utf8_lossy(&case.method).into_owned();
+    let sig = sign(
+        &ToSign { method: &method, path: &path, query: &pairs, headers: &hs, signed: &signed, payload_line: "UNSIGNED-PAYLOAD" },
+        &secret,
+        &ts,
+        &date8,
+        &region,
+        &service,
+    );
+    pairs.push((b"X-Amz-Signature".to_vec(), sig.into_bytes()));
+    let q = pairs
+        .iter()
+        .map(|(k, v)| format!("{}={}", uri_encode(k, false), uri_encode(v, false)))
+        .collect::<Vec<_>>()
+        .join("&");
+    let mut c = case.clone();
+    c.query = Some(q.into_bytes());
+    Some(c)
+}
+
 pub fn evaluate(f: &[&str]) -> Vec<String> {
-    let Some(case) = Case::parse(f) else { return vec!["0".into(), "0".into(), "BADREQ".into()] };
+    let Some(mut case) = Case::parse(f) else { return vec!["0".into(), "0".into(), "BADREQ".into()] };
+    let mut actual_query = None;
+    if case.kind.starts_with("pre.at-eval.") {
+        let Some(c) = materialize(&case) else { return vec!["0".into(), "0".into(), "BADREQ".into()] };
+        actual_query = c.query.clone();
+        case = c;
+    }
     let Some(req) = case.build() else { return vec!["0".into(), "0".into(), "BADREQ".into()] };
     let seen: Seen = Arc::new(Mutex::new(None));
     let svc = service(&case, &seen);
@@ -293,7 +381,12 @@ pub fn evaluate(f: &[&str]) -> Vec<String> {
             }
         }
     };
-    vec![t1.to_string(), t2.to_string(), outcome]
+    let mut out = vec![t1.to_string(), t2.to_string(), outcome];
+    if let Some(q) = actual_query {
+        // the query that was actually sent (the driver judges this one)
+        out.push(hex(&q));
+    }
+    out
 }
 
 // ---------------------------------------------------------------------------------------------
@@ -1116,6 +1209,67 @@ pub fn presigned_variants(rng: &mut Rng, p: &Pre, valid: &Case, full: &[(Vec<u8>
     }
 }
 
+pub const EXPIRIES: [u64; 11] = [1, 2, 30, 60, 300, 899, 900, 901, 3600, 604_800, 4_294_967_295];
+const GRID_MARGIN: i64 = 5;
+
+/// (age of the signature in seconds when used, X-Amz-Expires); negative age = signed in the future
+#[must_use]
+pub fn window_grid() -> Vec<(i64, u64)> {
+    let mut g: Vec<(i64, u64)> = Vec::new();
+    for e in EXPIRIES {
+        let ei = e as i64;
+        g.push((ei - GRID_MARGIN, e)); // inside, near the end
+        g.push((ei + GRID_MARGIN, e)); // just expired
+        if e < 900 {
+            // expired, but still within the skew tolerance of the signing time
+            for a in [(ei + 900) / 2, 890] {
+                if a >= ei + GRID_MARGIN {
+                    g.push((a, e));
+                }
+            }
+        } else if e < 4_000_000_000 {
+            // inside, beyond the skew tolerance (the tolerance does not apply to the past side)
+            for a in [890, 905, 1800] {
+                if a <= ei - GRID_MARGIN {
+                    g.push((a, e));
+                }
+            }
+        }
+        g.push((0, e));
+    }
+    // the future side: inside the tolerance, just beyond it, far beyond
+    for e in [1u64, 60, 899, 900, 3600, 4_294_967_295] {
+        for a in [-GRID_MARGIN, -890, -905, -1800] {
+            g.push((a, e));
+        }
+    }
+    g
+}
+
+/// a validly presigned URL as an at-eval template
+pub fn window_template(rng: &mut Rng, age: i64, expires: u64) -> Case {
+    let mut base = gen_base(rng, true);
+    base.body = Vec::new();
+    base.style = 0;
+    base.sink = "route".into();
+    base.service = "s3".into();
+    // nothing but the window decides these cases: no duplicate parameter names (open class sigv4-dup-query-unsorted)
+    let mut seen: Vec<Vec<u8>> = Vec::new();
+    base.query.retain(|(k, _)| {
+        if seen.contains(k) {
+            false
+        } else {
+            seen.push(k.clone());
+            true
+        }
+    });
+    base.unix = real_now() - age;
+    let mut p = Pre { base, expires, placement: "grid", split_scope: false, absent_listed: false };
+    let (mut c, _) = sign_presigned_case(rng, &mut p);
+    c.kind = format!("pre.at-eval.A{age}.E{expires}");
+    c
+}
+
 pub fn generate_presigned(rng: &mut Rng, n: u64, emit: &mut dyn FnMut(Vec<String>)) {
     let now = real_now();
     let mut produced = 0u64;
@@ -1129,6 +1283,13 @@ pub fn generate_presigned(rng: &mut Rng, n: u64, emit: &mut dyn FnMut(Vec<String
         let mut p = Pre { base, expires, placement: "calendar-edge", split_scope: false, absent_listed: false };
         let (valid, _) = sign_presigned_case(rng, &mut p);
         emit(valid.fields());
+        produced += 1;
+    }
+    // the window grid: every expiry of EXPIRIES against ages placed relative to the expiry AND relative to the 900 s
+    // skew constant, signed when evaluated (`pre.at-eval` templates), so the two constants cannot be confused and
+    // neither comparison can be dropped unnoticed
+    for (age, expires) in window_grid() {
+        emit(window_template(rng, age, expires).fields());
         produced += 1;
     }
     while produced < n {
